@@ -41,7 +41,8 @@ REGISTRY = {
         "not_decided": ["event-level balance (sum over tracks/steps)", "FluctELoss sampled loss", "InteractionApplier sub-cut secondaries loop (planned)", "MSC / field along-step variants (no energy moves there)"],
     },
     "C02": {
-        "modules": ["c02"],
+        "modules": ["c02", "c16"],
+        "select": r"^c02_|^c16_ef",
         "level_text": "Contracts on the real index arithmetic and per-slot kernels of track initialization (extracted to C each run), discharged by CBMC for all sizes and thread ids: vacancy/initializer indices in range and injective, charge-partitioned vacancies of distinct threads distinct. The whole-run clauses (termination, counters over many steps, multi-event interleaving) rest on a paper lemma over these per-call contracts and are listed as not decided.",
         "level_note": "Trusted: CBMC/dfcc/SAT; extraction rules; std::stable_partition/exclusive_scan/remove_if contracts assumed; atomics sequential. Not decided: loop termination, host glue (Stepper/CoreState), multi-event interleavings.",
         "design_ref": "DESIGN.md 4 C02",
